@@ -61,9 +61,17 @@ class C16(SCheck):
             srcs = [r.choice(["a", "d2"])]
             dest = "f1"
         elif cls == "same":
-            which = r.choice(["file", "dir", "target"])
+            which = r.choice(["file", "dir", "target", "dot-slash", "dotdot"])
+            if r.random() < 0.5:
+                flags["backup"] = r.choice(["numbered", "auto"])
+                if flags["backup"] == "auto":
+                    ops.append(gen.f_op("f1.~2~", 3, pat=1))
             if which == "file":
                 srcs, dest = ["f1"], "f1"
+            elif which == "dot-slash":
+                srcs, dest = ["f1"], "./f1"
+            elif which == "dotdot":
+                srcs, dest = ["f1"], "a/../f1"
             elif which == "dir":
                 srcs, dest = ["a"], "a"
             else:
